@@ -79,3 +79,35 @@ class Director:
     def drain(self):
         out, self.log = self.log, []
         return out
+
+
+class Hang(BaseException):
+    """raised in the main thread by the real-time watchdog"""
+
+
+def run_guarded(fn, backend, seconds=10):
+    """anyio.run(fn) under a real-time watchdog: a program that cannot even be cancelled (a shielded wait, a lost
+    wake-up of the harness itself) must not hang the check.  Returns ("ok", result) or ("hang", None)."""
+    import signal
+
+    import anyio
+
+    def on_alarm(signum, frame):
+        raise Hang()
+    old = signal.signal(signal.SIGALRM, on_alarm)
+    signal.setitimer(signal.ITIMER_REAL, seconds)
+    try:
+        return "ok", anyio.run(fn, backend=backend, backend_options=backend_options(backend))
+    except Hang:
+        return "hang", None
+    except BaseException as e:  # noqa
+        # the watchdog's exception may come out wrapped (trio) or mangled
+        def has_hang(x):
+            return isinstance(x, Hang) or (isinstance(x, BaseExceptionGroup) and any(has_hang(y) for y in x.exceptions)) \
+                or (x.__cause__ is not None and has_hang(x.__cause__)) or (x.__context__ is not None and has_hang(x.__context__))
+        if has_hang(e):
+            return "hang", None
+        raise
+    finally:
+        signal.setitimer(signal.ITIMER_REAL, 0)
+        signal.signal(signal.SIGALRM, old)
